@@ -372,7 +372,9 @@ def edit_cases(rng, tier):
                     if wc == "views":
                         g.views("none")
                     elif wc != "none":
-                        k = probe.new[0] if wt == "new" and probe.new else probe.old[0] if wt == "old" and probe.old else kp
+                        # (an edit that brings / removes no key: the keys whose position, object or value it changes)
+                        k = ((probe.new or probe.moved or [kp])[0] if wt == "new" else
+                             (probe.old or probe.moved[::-1] or [kp])[0] if wt == "old" else kp)
                         g.op(wc, k, "none")
                     ok = g.edit(kind, "none")
                     assert ok and g.steps[-1] == probe.steps[-1], "generator: the edit drawn twice differs"
